@@ -12,7 +12,10 @@ use serde_json::json;
 
 use crate::explore::{Bounds, DynCell, MachineryError, Report, RunOut, deadline_in};
 
-pub const VERIF: &str = "/verif";
+/// Root of the verification tree (`/verif`); a scratch copy of the machinery may point it elsewhere.
+pub fn verif_root() -> String {
+    std::env::var("VERIF_ROOT").unwrap_or_else(|_| "/verif".to_string())
+}
 
 #[derive(Clone, Copy, Debug, PartialEq, Eq)]
 pub enum Tier {
@@ -72,7 +75,7 @@ pub struct Findings {
 }
 
 pub fn load_findings() -> Findings {
-    let p = Path::new(VERIF).join("known_findings.json");
+    let p = Path::new(&verif_root()).join("known_findings.json");
     match std::fs::read_to_string(&p) {
         Ok(s) => serde_json::from_str(&s).unwrap_or_else(|e| {
             eprintln!("machinery error: {} is not valid: {e}", p.display());
@@ -341,7 +344,7 @@ pub fn write_replay(
     feats: &BTreeSet<String>,
 ) -> Result<PathBuf, MachineryError> {
     let v = run.violation.as_ref().unwrap();
-    let dir = Path::new(VERIF).join("replays").join(property);
+    let dir = Path::new(&verif_root()).join("replays").join(property);
     std::fs::create_dir_all(&dir).map_err(|e| MachineryError(e.to_string()))?;
     let h = crate::explore::hash_of(&(cell.cell_name(), &run.choices, &v.oracle));
     let path = dir.join(format!("{:016x}.json", h));
@@ -360,7 +363,7 @@ pub fn write_replay(
 }
 
 pub fn write_evidence(out: &Outcome, wall_s: f64) {
-    let dir = Path::new(VERIF).join("evidence");
+    let dir = Path::new(&verif_root()).join("evidence");
     let _ = std::fs::create_dir_all(&dir);
     let mut coverage = serde_json::Map::new();
     coverage.insert("evaluations".into(), json!(out.evaluations));
